@@ -502,6 +502,37 @@ def run_fixture(case):
             if got != vals.dec(it['v']) and not violations:
                 bad('jsondisk-item', 'key %r: %s' % (it['k'], vals.brief(got)))
         j.close()
+        # JSONDisk with composite keys: the member order of a mapping is part of the released key encoding
+        j2spec = man['caches'].get('json2')
+        if j2spec:
+            j2 = dc.Cache(os.path.join(root, 'json2'), disk=dc.JSONDisk)
+            if len(j2) != j2spec['count'] and not violations:
+                bad('jsondisk-count', '%d != %d' % (len(j2), j2spec['count']))
+            for it in j2spec['items']:
+                n += 1
+                key = json.loads(it['kjson'])
+                got = j2.get(key, default='<absent>')
+                if got != json.loads(it['vjson']) and not violations:
+                    bad('jsondisk-composite-key', 'key %s: %s' % (it['kjson'], vals.brief(got)))
+                if key not in j2 and not violations:
+                    bad('jsondisk-composite-key', 'key %s not in cache' % it['kjson'])
+            if not violations:
+                # replacing through the current code replaces (no second row under another encoding of the same key)
+                it = j2spec['items'][0]
+                j2[json.loads(it['kjson'])] = 'again'
+                if len(j2) != j2spec['count']:
+                    bad('jsondisk-composite-key', 'replacing key %s added a row' % it['kjson'])
+            j2.close()
+            jf = dc.FanoutCache(os.path.join(root, 'jsonfan'), shards=man['caches']['jsonfan']['shards'], disk=dc.JSONDisk)
+            for it in man['caches']['jsonfan']['items']:
+                n += 1
+                key = json.loads(it['kjson'])
+                if jf._hash(key) % len(jf._shards) != it['shard'] and not violations:
+                    bad('jsondisk-routing', 'key %s routed to shard %d, released version %d' % (it['kjson'], jf._hash(key) % len(jf._shards), it['shard']))
+                got = jf.get(key, default='<absent>', retry=True)
+                if got != json.loads(it['vjson']) and not violations:
+                    bad('jsondisk-fanout-item', 'key %s: %s' % (it['kjson'], vals.brief(got)))
+            jf.close()
         d = dc.Deque(directory=os.path.join(root, 'deque'))
         if [fp(x) for x in d] != [fp(vals.dec(x)) for x in man['caches']['deque']] and not violations:
             bad('deque', vals.brief(list(d)))
